@@ -13,15 +13,14 @@ def raw_notation():
 SPEC = {
     "translators": [raw_notation],
     "trusted": [
-        "C20: translate/c20_raw_notation.py (parses every notation!( … ) of raw_class_file/src/lib.rs with the grammar of the macro's struct/enum arms, fail closed; regenerates coq/C20/RawGen.v at the start of every check; pins the token streams of macros.rs, fn pool_has_utf8 and impl ClassFile, which the hand-written interpreters follow)",
-        "C20: coq/C20/Fmt.v — the three generic interpreters fwrite/fread/flen are a hand transcription of macros.rs arm by arm; they are validated against ClassFile::{read,to_bytes,write,length} by the correspondence run (corpus, generated raw values of every declared variant, values outside the hypotheses, mutated files)",
+        "C20: translate/c20_raw_notation.py (parses every notation!( … ) of raw_class_file/src/lib.rs with the grammar of the macro's struct/enum arms, fail closed; regenerates coq/C20/RawGen.v at the start of every check; pins the token streams of macros.rs, fn pool_has_utf8, fn pool_get, fn pool_slots and impl ClassFile, which the hand-written interpreters follow; every other impl block must be a `pub fn slots(&self) -> usize { match self { T::A { .. } | … => 2, _ => 1, } }` table, translated into the v_wide flag of the variants; the `Vec<T> slots {…}` field form and `pool_slots(&this.f)` are accepted only in the struct arm and only for a T with such a table)",
+        "C20: coq/C20/Fmt.v — the three generic interpreters fwrite/fread/flen are a hand transcription of macros.rs arm by arm; they are validated against ClassFile::{read,to_bytes,write,length} by the correspondence run (corpus, generated raw values of every declared variant with and without Long/Double pool entries, values outside the hypotheses, pools announced with a wrong count, attribute names designating every index of a pool with 8-byte constants, mutated files)",
         "C20: coq/C20/Jvms.v — JVMS 4.1-4.7 layouts transcribed by hand in the same declaration language (the specification side of layout_is_jvms)",
         "C20: the harness' strict JVMS walker (harness/src/bin/c20.rs mod jvms) and duke::read_class are the independent consumers used by the oracle that searches failing inputs on the implementation",
     ],
     "stated_not_proved": [
-        "C20_reads_every_wellformed_class : forall bs, accepted by a reader generated from jvms_env with the two-slot pool rule -> pool without Long/Double -> exists v, read_sty raw_env true fuel None class_ty bs = Ok (v, []) — the link from 'equal layouts' (C20_layout_is_jvms) to 'equal read behaviour' is argued from the layout/dispatch/attr_len theorems and checked by the oracle (independent strict JVMS walker on corpus, written and mutated files), not proved as one Coq theorem",
+        "C20_reads_every_wellformed_class : forall bs, accepted by a reader generated from jvms_env (pool counted in indices, 8-byte constants taking two) -> exists v, read_sty raw_env true fuel None class_ty bs = Ok (v, []) — the link from 'equal layouts' (C20_layout_is_jvms) to 'equal read behaviour' is argued from the layout/dispatch/attr_len theorems and checked by the oracle (independent strict JVMS walker with the two-index rule on corpus/C20, all 571 classes of corpus/classes — 70 of them with long/double constants —, written and mutated files), not proved as one Coq theorem",
         "closed form of `resolves` for attribute variants (attribute_name_index designates the Utf8 entry with the variant's own name, which no earlier variant claims): evaluated by the model on every generated value (case flag hyp) and exercised by the violating-4..7 streams, not stated as a theorem; the closed forms for the stack map frames ARE proved (C20_frames_closed_form)",
-        "C20_pool_count_full (unrestricted constant_pool_count = JVMS count): false today, known finding F10; kept as an unproved Definition",
     ],
     "assumptions": [
         "class files fit in memory and are shorter than 2^32 bytes (ClassFile::length is u32 arithmetic); the harness is built with overflow checks, so arithmetic overflow inside a notation expression is a panic (modelled as Err), casts `as u8/u16/u32` truncate",
